@@ -43,7 +43,29 @@ def objective_value(name: str, x):
         if name.startswith("neg:"):
             r = objective_value(name[4:], x)
             return [-t for t in r] if isinstance(r, list) else -r
+        if name.startswith("cached:"):
+            return objective_value(name[7:], x)              # the VALUE; the task classes hand out one stored list object per position (stored_objective)
     raise ValueError(name)
+
+
+_STORE: dict = {}
+
+
+def stored_objective(name: str, x):
+    """`cached:<obj>`: a memoised objective / a row of a pre-computed score table - the SAME list object is returned every time a position is evaluated (legal: the
+    returned value belongs to the user; the framework must not edit it).  The stored row is checked against a private copy on every call."""
+    if not name.startswith("cached:"):
+        return objective_value(name, x)
+    key = (name, repr(_flat(x)))
+    if key not in _STORE:
+        v = objective_value(name[7:], x)
+        _STORE[key] = (v, list(v) if isinstance(v, list) else v)
+    return _STORE[key][0]
+
+
+def store_corrupted() -> list:
+    """positions whose stored objective row no longer equals its private copy (somebody edited the user's list in place)"""
+    return [k for k, (v, c) in _STORE.items() if isinstance(v, list) and not (v == c or (repr(v) == repr(c)))]
 
 
 class SpecTask(Task):
@@ -78,7 +100,7 @@ class SpecTask(Task):
                 x.sort(reverse=True)
                 if x: x[0] = x[0] * 3.0 + 100.0
             return val
-        val = objective_value(self.data["obj"], x)
+        val = stored_objective(self.data["obj"], x)
         return val
 
 
@@ -227,6 +249,7 @@ def run_job(job: dict) -> dict:
         if job.get("privates"):
             obs["privates"] = {nm_: int(getattr(o, f"_{job['opt']}{nm_}")) for nm_ in job["privates"]}
         obs["ok"] = True
+        obs["store_corrupted"] = [k[1] for k in store_corrupted()][:3]
         obs["evolution"] = [[(a.position, a.cost, a.fitness) for a in p.agents] for p in res.evolution]
         obs["rates"] = [float(x) for x in res.rates]
         obs["best"] = None if res.best_solution is None else (res.best_solution.position, res.best_solution.cost, res.best_solution.fitness)
